@@ -59,7 +59,7 @@ def main():
                 row['applies'] = True
                 for p in props:
                     t0 = time.time()
-                    rc, out = sh('cd /verif && HL7APY_REPO=%s PYTHONPATH=%s python3-vt check.py --property %s' % (REPO, REPO, p))
+                    rc, out = sh('cd /verif && VERIF_OUT=/tmp/seedrun_out HL7APY_REPO=%s PYTHONPATH=%s python3-vt check.py --property %s' % (REPO, REPO, p))
                     lines = [l for l in out.split('\n') if l.startswith('VIOLATION') or l.startswith('UNDECIDED')]
                     row['checks'][p] = {'exit': rc, 'violations': [l[:300] for l in lines if l.startswith('VIOLATION')][:6],
                                         'undecided': len([l for l in lines if l.startswith('UNDECIDED')]),
